@@ -2,7 +2,7 @@ ID = 'C15'
 FS0 = ['--max-field-sensitivity-array-size', '0']
 UNITS = {
     # communicate reads in 4096-byte pieces (`read(fd, 4096)`, a literal): replaced by VERIF_COMM_BLOCK in a copy of Process.cc
-    'proc': dict(wrap='wrap.cc', shim=True, new_block=64, cxxflags=['-DVERIF_COMM_BLOCK=4'],
+    'proc': dict(wrap='wrap.cc', shim=True, new_block=64, cxxflags=['-DVERIF_COMM_BLOCK=4', '-DVERIF_DEQUE_CAP=4'],  # deque shim capacity 4 (>= W+1 chunks)
                  src_subst={'Process.cc': [(r'read\(this->stdout_read_fd, 4096\)', 'read(this->stdout_read_fd, VERIF_COMM_BLOCK)', 1)]}),
 }
 BOUNDS = ''
@@ -14,7 +14,7 @@ def queries(tier):
     qs = []
     for to in (0, 1000000):
         for w in ([0, 1] if tier == 'quick' else [0, 1, 2]):
-            qs.append(dict(name='comm_w%d_to%d' % (w, to), unit='proc', harness='h_comm.c', defs={'WMAX': w, 'TIMEOUT': to, 'TMAX': 12}, unwind=14, timeout=1200, mem_gb=12, flags=FS0, backend='cadical',
+            qs.append(dict(name='comm_w%d_to%d' % (w, to), unit='proc', harness='h_comm.c', defs={'WMAX': w, 'TIMEOUT': to, 'TMAX': 6 + 3 * w}, unwind=6 + w, unwindset='harness.0:%d' % (8 + 3 * w), timeout=1200, mem_gb=12, flags=FS0, backend='cadical',
                            desc='Subprocess::communicate (no stdin payload) vs OS model: child writes <= %d bytes in arbitrary chunks/timing and exits; %s' % (w, 'no deadline' if to == 0 else 'deadline 1 s, arbitrary clock'),
-                           bounds='<= %d stdout bytes, <= 12 OS calls' % w))
+                           bounds='<= %d stdout bytes, <= %d OS calls' % (w, 6 + 3 * w)))
     return qs
